@@ -29,11 +29,44 @@ type jpRun struct {
 	startErr error
 }
 
-func runJpgo(bin string, args []string, stdin []byte) jpRun {
+// runJpgo runs the binary. With pieces > 1 standard input arrives in that many separate writes with a short
+// pause between them (what a pipe from another program looks like), otherwise in one go.
+func runJpgo(bin string, args []string, stdin []byte, pieces int) jpRun {
 	ctx, cancel := context.WithTimeout(context.Background(), 20*time.Second)
 	defer cancel()
 	cmd := exec.CommandContext(ctx, bin, args...)
-	cmd.Stdin = bytes.NewReader(stdin)
+	if pieces > 1 && len(stdin) >= pieces {
+		pr, pw, err := os.Pipe()
+		if err != nil {
+			return jpRun{startErr: err}
+		}
+		cmd.Stdin = pr
+		cuts := []int{0}
+		switch pieces {
+		case 2:
+			cuts = append(cuts, len(stdin)/2)
+		case 3:
+			cuts = append(cuts, 1, len(stdin)-1)
+		default:
+			cuts = append(cuts, len(stdin)-1)
+		}
+		cuts = append(cuts, len(stdin))
+		go func() {
+			defer pw.Close()
+			for k := 0; k+1 < len(cuts); k++ {
+				if cuts[k+1] <= cuts[k] {
+					continue
+				}
+				if _, err := pw.Write(stdin[cuts[k]:cuts[k+1]]); err != nil {
+					return
+				}
+				time.Sleep(25 * time.Millisecond)
+			}
+		}()
+		defer pr.Close()
+	} else {
+		cmd.Stdin = bytes.NewReader(stdin)
+	}
 	var so, se bytes.Buffer
 	cmd.Stdout, cmd.Stderr = &so, &se
 	err := cmd.Run()
@@ -111,6 +144,48 @@ var c19Inputs = []struct {
 	{"trailing comma", `[1, 2,]`, false},
 	{"NaN", `NaN`, false},
 	{"bare word", `nul`, false},
+}
+
+func init() {
+	// documents larger than a pipe buffer (and than any reasonable read chunk), valid and invalid
+	var sb strings.Builder
+	sb.WriteString(`{"a": {"b": [1, 2, {"c": "x"}]}, "s": "str", "n": 5, "arr": [`)
+	for i := 0; i < 30000; i++ {
+		if i > 0 {
+			sb.WriteString(", ")
+		}
+		fmt.Fprintf(&sb, "%d", i%977)
+	}
+	sb.WriteString(`], "objs": [`)
+	for i := 0; i < 4000; i++ {
+		if i > 0 {
+			sb.WriteString(",")
+		}
+		fmt.Fprintf(&sb, `{"n": %d, "s": "name-%d"}`, i%13, i)
+	}
+	sb.WriteString(`]}`)
+	big := sb.String()
+	c19Inputs = append(c19Inputs,
+		struct {
+			name  string
+			data  string
+			valid bool
+		}{"large document (%d KiB)", big, true},
+		struct {
+			name  string
+			data  string
+			valid bool
+		}{"large document followed by garbage", big + " trailing", false},
+		struct {
+			name  string
+			data  string
+			valid bool
+		}{"large document cut short", big[:len(big)-2], false},
+		struct {
+			name  string
+			data  string
+			valid bool
+		}{"two large documents", big + "\n" + big, false})
 }
 
 func c19(r *mon.Run) {
@@ -205,8 +280,12 @@ func c19(r *mon.Run) {
 				}
 			}
 			t.Eval()
-			run := runJpgo(bin, args, stdin)
-			desc := fmt.Sprintf("jpgo %q  input(%s via %s)=%q", args, in.name, channel, in.data)
+			pieces := 1
+			if channel == "stdin" {
+				pieces = []int{1, 1, 2, 3, 4}[rng.Intn(5)]
+			}
+			run := runJpgo(bin, args, stdin, pieces)
+			desc := fmt.Sprintf("jpgo %q  input(%s via %s, delivered in %d piece(s))=%q", args, in.name, channel, pieces, brief(in.data))
 			if run.startErr != nil || run.timedOut {
 				r.Inconclusive(fmt.Sprintf("invocation %d could not be judged (start error %v, timed out %v)", i, run.startErr, run.timedOut))
 				return
